@@ -170,11 +170,25 @@ pub fn parse_report(text: &str) -> Parsed {
                 }
                 continue;
             }
+            if line.trim().is_empty() {
+                // blank lines inside or around the list do not end it
+                continue;
+            }
             in_list = false;
             // a pattern section is consumed by its list
             current = None;
         }
         let t = line.trim();
+        if let Some(rest) = line.strip_prefix("- ") {
+            // the explanatory sections contain no bullet lines: a `- file:line` line here is an entry
+            // that belongs to no list
+            if let Some(i) = rest.rfind(':') {
+                if rest[i + 1..].parse::<i64>().is_ok() {
+                    p.problems.push(format!("entry outside a '### Lines' list: {line:?}"));
+                    continue;
+                }
+            }
+        }
         if let Some(n) = total_in(t, "(Total Vulnerabilities") {
             if t.starts_with("# ") {
                 p.total_vulnerabilities = Some(n);
